@@ -41,6 +41,18 @@ def is_self0(e):
     return e["k"] == "field" and e["name"] == "0" and e["a"]["k"] == "path" and e["a"]["res"].get("name") == "self"
 
 
+def conv_peel(e):
+    """strip value-preserving conversions around an argument: x.into(), x.clone(), T::from(x), Into::into(x)"""
+    while True:
+        e = peel(e)
+        if e["k"] == "mcall" and e["m"] in ("into", "clone", "to_owned") and not e["args"]:
+            e = e["recv"]
+        elif e["k"] == "call" and len(e["args"]) == 1 and (walk.callee_of(e) or {}).get("name") in ("from", "into"):
+            e = e["args"][0]
+        else:
+            return e
+
+
 def local_name(e, allow_field0=True):
     e = peel(e)
     if allow_field0 and e["k"] == "field" and e["name"] == "0":
@@ -227,7 +239,7 @@ def one_class(chk, F, cn, info):
         others = [n for n in walk.walk_body(b) if n.get("k") in ("bin", "un") or (n.get("k") == "mcall" and n["m"] not in ("into", "clone"))]
         ok = len(news) == 1 and not others
         if ok:
-            names = [local_name(a, False) for a in news[0]["args"]]
+            names = [local_name(conv_peel(a), False) for a in news[0]["args"]]
             ok = names == [p.get("name") for p in b["params"]]
         chk.ob("ctor|%s" % cn, ok, "#[new] passes its parameters positionally to the Rust constructor", body_loc(F, b), found=found)
         chk.count("constructors")
